@@ -1,4 +1,5 @@
 import DclabModel.Lemmas.Emod
+import DclabModel.Lemmas.EmodMem
 /-!
 # C05 — Young's modulus is the scaled linear interpolation of the look-up table
 
@@ -567,5 +568,129 @@ example : sepLine exLut (3, 1) (3, 2) (4, 3/2) = true := by decide +kernel
 /-- joint rescale with λ = 3/2 on the example -/
 example : emodA exMeta exLut exT exDelta { L := 45, Q := 27/50, px := 51/100 } 5 (63/8, 2)
     = some (1856/729) := by decide +kernel
+
+/-! ## 9. memory: who owns what (`scale_linear.py`, `get_emodulus(copy=True)`)
+
+`Model/EmodMem.lean`: arrays are objects in a heap, the `scale_*` functions and `get_emodulus`
+are state-passing functions on it. -/
+
+theorem applyF_facX (k : Nat) (Lin Lout : Rat) (l : List Rat) :
+    applyF (facX k Lin Lout) l = l.map (scaleX k Lin Lout) := by
+  unfold facX scaleX
+  split
+  · simp [applyF]
+  · simp [applyF, mulFrom_const]
+
+/-- `scale_feature(..., inplace=False)` (every feature, every dtype class of the argument –
+`float64`, another float type, integer – and every heap): if it returns, the result is a NEW
+object and every array that existed before the call, the caller's included, is unchanged -/
+theorem scale_feature_copy_keeps_caller (ft : Feat) (H : Heap) (r : Nat)
+    (Lin Lout Qin Qout ein : Rat) (eout : EtaOut) (H' : Heap) (r' : Nat)
+    (h : scaleFeatureMem ft H r Lin Lout Qin Qout ein eout false = .ok (H', r')) :
+    r' = H.length ∧ H'.take H.length = H := by
+  cases ft <;> simp only [scaleFeatureMem, scaleAreaMem, scaleVolumeMem, scaleEmodMem] at h
+  · split at h
+    · cases h
+    · split at h
+      · cases h
+      · exact ⟨(mulMem_copy h).1, (mulMem_copy h).2.1⟩
+  all_goals first
+    | exact ⟨(mulMem_copy h).1, (mulMem_copy h).2.1⟩
+    | cases h
+
+/-- `scale_feature(..., inplace=True)`: the result IS the argument (same object), no object is
+created and no other object is touched -/
+theorem scale_feature_inplace_same_object (ft : Feat) (H : Heap) (r : Nat)
+    (Lin Lout Qin Qout ein : Rat) (eout : EtaOut) (H' : Heap) (r' : Nat)
+    (h : scaleFeatureMem ft H r Lin Lout Qin Qout ein eout true = .ok (H', r')) :
+    r' = r ∧ H'.length = H.length ∧ ∀ j, j ≠ r → H'[j]? = H[j]? := by
+  cases ft <;> simp only [scaleFeatureMem, scaleAreaMem, scaleVolumeMem, scaleEmodMem] at h
+  · split at h
+    · cases h
+    · split at h
+      · cases h
+      · exact ⟨(mulMem_inplace h).1, (mulMem_inplace h).2.1, (mulMem_inplace h).2.2.1⟩
+  all_goals first
+    | exact ⟨(mulMem_inplace h).1, (mulMem_inplace h).2.1, (mulMem_inplace h).2.2.1⟩
+    | cases h
+
+/-- in both modes the returned array has the argument's dtype and holds the values of the
+functional model (`scaleX` for `area_um`/`volume`, the `scale_emodulus` factor incl. its
+`has_changes` shortcut, identity for `deform`/`circ`): copying or not is invisible in the values -/
+theorem scale_feature_values (ft : Feat) (H : Heap) (r : Nat) (a : Arr) (ha : H[r]? = some a)
+    (Lin Lout Qin Qout ein : Rat) (eout : EtaOut) (inplace : Bool) (H' : Heap) (r' : Nat)
+    (h : scaleFeatureMem ft H r Lin Lout Qin Qout ein eout inplace = .ok (H', r')) :
+    H'[r']? = some { a with data := scaleFeatureVals ft Lin Lout Qin Qout ein eout a.data } := by
+  have key : ∀ f, mulMem H r inplace f = .ok (H', r') →
+      H'[r']? = some { a with data := applyF f a.data } := by
+    intro f hf
+    cases inplace with
+    | false =>
+      obtain ⟨_, _, b, hb, hv⟩ := mulMem_copy hf
+      rw [ha] at hb; cases hb; exact hv
+    | true =>
+      obtain ⟨hr, _, _, b, hb, hv⟩ := mulMem_inplace hf
+      rw [ha] at hb; cases hb; rw [hr]; exact hv
+  cases ft <;> simp only [scaleFeatureMem, scaleAreaMem, scaleVolumeMem, scaleEmodMem] at h
+  · rw [ha] at h
+    simp only at h
+    split at h
+    · cases h
+    · rw [key _ h, applyF_facX]; rfl
+  · rw [key _ h]; rfl
+  · rw [key _ h]; rfl
+  · rw [key _ h]
+    simp only [scaleFeatureVals]
+    cases facE Lin Lout Qin Qout ein eout <;> rfl
+  · rw [key _ h, applyF_facX]; rfl
+  · cases h
+
+/-- `scale_area_um` refuses an integer array in place before touching anything (`ValueError`),
+for every heap and every width -/
+theorem scale_area_int_inplace_rejected (H : Heap) (r : Nat) (a : Arr) (ha : H[r]? = some a)
+    (hdt : a.dt = .int) (Lin Lout : Rat) :
+    scaleAreaMem H r Lin Lout true = .error .value := by
+  simp [scaleAreaMem, ha, hdt]
+
+/-- … while an integer array with `inplace=False` is copied and the copy cannot be multiplied
+by a float (`UFuncTypeError`, today's behaviour) unless the widths coincide -/
+theorem scale_int_copy_type_error (k : Nat) (H : Heap) (r : Nat) (a : Arr) (ha : H[r]? = some a)
+    (hdt : a.dt = .int) (Lin Lout : Rat) (hne : Lin ≠ Lout) :
+    mulMem H r false (facX k Lin Lout) = .error .type := by
+  simp [mulMem, npArray, ha, facX, hne, imul, hdt]
+
+/-- `get_emodulus(copy=True)`: whatever the route, the pixelation switch, the arithmetic of the
+in-place statements and the heap, the caller's three arrays (abscissa, deform, LUT array) are
+unchanged after the call – every in-place statement of the code works on an object the call
+allocated itself -/
+theorem get_emodulus_copy_keeps_caller (px routeB : Bool) (g : Nat → List Rat → List Rat)
+    (H : Heap) (hH : 3 ≤ H.length) :
+    (runM H (emodProg true px routeB g)).take 3 = H.take 3 := by
+  apply runM_take 3 _ H hH
+  cases px <;> cases routeB <;> simp [emodProg, Owned]
+
+/-- `copy=False` (excluded from the property) is different: the global route overwrites the
+caller's abscissa and deform arrays, the per-event route the deform array -/
+theorem copy_false_mutates_caller (g : Nat → List Rat → List Rat) :
+    callerVisibleUpdates 3 (emodProg false true false g) = [1, 0] ∧
+    callerVisibleUpdates 3 (emodProg false true true g) = [1] ∧
+    callerVisibleUpdates 3 (emodProg true true true g) = [] ∧
+    callerVisibleUpdates 3 (emodProg true true false g) = [] := by
+  refine ⟨?_, ?_, ?_, ?_⟩ <;> simp [emodProg, callerVisibleUpdates, List.eraseDups] <;> decide
+
+/-- non-vacuity: a float32 area array scaled from a 20 µm to a 30 µm channel, both modes -/
+example : scaleFeatureMem .areaUm [⟨.f32, [4, 8]⟩] 0 20 30 1 1 1 (.scalar 1) false
+    = .ok ([⟨.f32, [4, 8]⟩, ⟨.f32, [9, 18]⟩], 1) := by decide +kernel
+example : scaleFeatureMem .areaUm [⟨.f32, [4, 8]⟩] 0 20 30 1 1 1 (.scalar 1) true
+    = .ok ([⟨.f32, [9, 18]⟩], 0) := by decide +kernel
+/-- per-event viscosities: one factor per element -/
+example : scaleFeatureMem .emodulus [⟨.f64, [1, 1]⟩] 0 20 20 1 1 1 (.perEvent [2, 3]) true
+    = .ok ([⟨.f64, [2, 3]⟩], 0) := by decide +kernel
+/-- the `has_changes` shortcut: nothing to do, still a copy -/
+example : scaleFeatureMem .emodulus [⟨.int, [1, 1]⟩] 0 20 20 1 1 5 (.scalar 5) false
+    = .ok ([⟨.int, [1, 1]⟩, ⟨.int, [1, 1]⟩], 1) := by decide +kernel
+example : (runM [⟨.f64, [8]⟩, ⟨.f64, [1]⟩, ⟨.f64, [2]⟩]
+    (emodProg false true false fun _ l => l.map (· / 2))).take 3
+    ≠ [⟨.f64, [8]⟩, ⟨.f64, [1]⟩, ⟨.f64, [2]⟩] := by decide +kernel
 
 end DclabModel.C05
